@@ -21,7 +21,7 @@ def _size(case, dim):
 
 
 REDUCTIONS = {"sum", "sum_dim", "mean_dim", "amax", "amin", "all", "any", "all_dim", "any_dim", "all_dims",
-              "any_dims", "argmax", "argmin", "prod", "prod_dim", "cumsum"}
+              "any_dims", "argmax", "argmin", "prod", "prod_dim", "cumsum", "max_dim", "min_dim", "logsumexp", "logcumsumexp"}
 
 
 def squeeze_dim_nonunit(name, c, detail):
@@ -143,6 +143,17 @@ def rank0_explicit_dim(name, c, detail):
     return False   # prod.dim_int / all.dims / any.dims: fixed in f89de7f
 
 
+def scatter_src_larger(name, c, detail):
+    """torch.scatter / scatter_add accept a src larger than index (index.size(d) <= src.size(d)); ONNX ScatterElements
+    requires updates.shape == indices.shape and the function passes src through unchanged."""
+    return name in ("scatter_src", "scatter_add") and list(c["src"]) != list(c["idx_shape"])
+
+
+def pixel_shuffle_empty(name, c, detail):
+    """aten_pixel_shuffle, rank != 4: Reshape([-1] ++ Shape[-3:]) with allowzero=0 re-reads a 0 as "copy the input dim"."""
+    return name == "pixel_shuffle" and len(c["shape"]) != 4 and 0 in c["shape"]
+
+
 def split_zero_dim(name, c, detail):
     return name == "split" and _size(c, c["dim"]) == 0
 
@@ -166,6 +177,8 @@ def int_dtype_promotion(name, c, detail):
 
 
 PREDICATES = {
+    "C08-scatter-src-larger": scatter_src_larger,
+    "C08-pixel-shuffle-empty": pixel_shuffle_empty,
     "C08-add-bool-alpha0-broadcast": add_bool_alpha0_broadcast,
     "C08-unfold-rank0-size0": unfold_rank0_size0,
     "C08-upsample-bilinear-scales-ignored": upsample_bilinear_scales_ignored,
